@@ -1223,10 +1223,24 @@ cdef class NeighborCache:
 
     cpdef update(self):
         self._update_last_avg_nbr_size()
-        cdef int n_threads = self._n_threads
+        cdef int n_threads = get_number_of_threads()
         cdef int dst_index = self._dst_index
         cdef size_t i
         cdef long np = self._particles[dst_index].get_number_of_particles()
+        cdef UIntArray _arr
+        if n_threads != self._n_threads:
+            # One buffer per thread, indexed by threadid(): follow a thread
+            # count that was changed after the cache was built.
+            aligned_free(self._neighbors)
+            self._n_threads = n_threads
+            self._neighbors = <void**>aligned_malloc(
+                sizeof(void*)*n_threads
+            )
+            self._neighbor_arrays = []
+            for i in range(n_threads):
+                _arr = UIntArray()
+                self._neighbor_arrays.append(_arr)
+                self._neighbors[i] = <void*>_arr
         self._start_stop.resize(np*2)
         self._pid_to_tid.resize(np)
         self._cached.resize(np)
